@@ -8,11 +8,14 @@ Local Open Scope N_scope.
 
 Definition no_sub : bytes -> xtree + N := fun _ => inr E_XML_PARSING_FAILED.
 
-(* ------------------------------------------------------------------ the end-element callback after an error *)
+(* ------------------------------------------------------------------ cached base64 text and the error field *)
 
-(* <Sync xmlns="AirSync:"> <Add> x 998 <ConversationId xmlns="Email2:"> TEXT <x> </x> ...
-   ConversationId is binary-flagged and has 999 ancestors, so <x> is refused (NESTING_TOO_DEEP); at </x> the callback
-   still decodes the cached text of `current` (the ConversationId element) BEFORE it looks at the error field. *)
+(* <Sync xmlns="AirSync:"> <Add> x 998 <ConversationId xmlns="Email2:"> TEXT <x> ...
+   ConversationId is binary-flagged and has 999 ancestors, so <x> would be refused (NESTING_TOO_DEEP).  Since /repo
+   c0648d3 the start-element callback first decodes the text cached on `current` (flush_binary_content): bad base64
+   is reported there (19), before the depth check (55); good base64 becomes a text node in front of the refused child.
+   (Before that commit the cache survived the error and the end-element callback, which decodes BEFORE it looks at the
+   error field, replaced the recorded code or added a node after the error: those two witnesses are gone.) *)
 Definition deep_binary (text : string) : list event :=
   EvStartElement (bs "AirSync:|Sync") [] 0 ::
   repeat (EvStartElement (bs "AirSync:|Add") [] 0) 998 ++
@@ -20,21 +23,29 @@ Definition deep_binary (text : string) : list event :=
 
 Definition top_kids (c : ctx) : nat := match c_spine c with f :: _ => List.length (f_rkids f) | [] => O end.
 
-(* invalid base64: the recorded error code is REPLACED (55 -> 19) *)
-Lemma sticky_error_code_refuted :
-  exists evs e, let c := run main_table no_sub [] init_ctx evs in
-                c_error c = E_NESTING_TOO_DEEP /\ c_error (step main_table no_sub [] c e) = E_B64_DEC.
-Proof. exists (deep_binary "!!!!"), (EvEndElement (bs "x") 0). vm_compute. split; reflexivity. Qed.
+Lemma flush_precedes_depth_check :
+  c_error (run main_table no_sub [] init_ctx (deep_binary "!!!!")) = E_B64_DEC /\
+  (let c := run main_table no_sub [] init_ctx (deep_binary "YWJj") in
+   c_error c = E_NESTING_TOO_DEEP /\ top_kids c = 1%nat /\
+   step main_table no_sub [] c (EvEndElement (bs "x") 0) = c).
+Proof. vm_compute. repeat split; reflexivity. Qed.
 
-(* valid base64: a text node is ADDED to the tree after the error was recorded *)
-Lemma sticky_error_tree_refuted :
-  exists evs e, let c := run main_table no_sub [] init_ctx evs in
-                c_error c = E_NESTING_TOO_DEEP /\ c_spine (step main_table no_sub [] c e) <> c_spine c.
-Proof.
-  exists (deep_binary "YWJj"), (EvEndElement (bs "x") 0). cbv zeta. split; [vm_compute; reflexivity|].
-  intros H. apply (f_equal (fun sp => match sp with f :: _ => List.length (f_rkids f) | [] => O end)) in H.
-  vm_compute in H. discriminate.
-Qed.
+(* <Sync><ConversationId>Zg==<x/>b28=</ConversationId>: each run of base64 text is decoded on its own and stays where it
+   was: text "f", element x, text "oo" *)
+Lemma binary_mixed_content_in_order :
+  let c := run main_table no_sub [] init_ctx
+             [EvStartElement (bs "AirSync:|Sync") [] 0; EvStartElement (bs "Email2:|ConversationId") [] 0;
+              EvCharacters (bs "Zg=="); EvStartElement (bs "AirSync:|Add") [] 0; EvEndElement (bs "AirSync:|Add") 0;
+              EvCharacters (bs "b28="); EvEndElement (bs "Email2:|ConversationId") 0] in
+  c_error c = WBXML_OK /\
+  match c_spine c with
+  | [f] => match kids_of f with
+           | [NElt _ _ [NText a; NElt _ _ []; NText b]] => a = bs "f" /\ b = bs "oo"
+           | _ => False
+           end
+  | _ => False
+  end.
+Proof. vm_compute. repeat split; reflexivity. Qed.
 
 (* ------------------------------------------------------------------ examples *)
 
